@@ -313,3 +313,34 @@ Section Clean.
     intros f i s r s' k Hp Hk H o ->. destruct (fault_in_window_stops _ _ _ _ _ _ H Hk Hp) as [X _]. discriminate.
   Qed.
 End Clean.
+
+(* ---- the hint base and the tactic, re-exported for the files that build on this one ---- *)
+#[export] Hint Resolve quiet_ret quiet_fail quiet_panic quiet_guard quiet_get quiet_lift_opt quiet_opt_or_panic
+  quiet_retrieve quiet_write_kv quiet_upd_acct quiet_get_acct quiet_alloc quiet_arg quiet_args_from
+  quiet_val_of quiet_meta_of clean_dep
+  clean_save_kv clean_load_account clean_save_account clean_marshal_tok clean_unmarshal_tok
+  clean_marshal_rol clean_unmarshal_rol clean_is_payable
+  clean_check_basic clean_get_esdt_data clean_is_paused clean_check_froze_and_pause clean_save_esdt_data
+  clean_add_to_esdt_balance clean_get_nft_on_destination clean_get_nft_on_sender clean_save_nft
+  clean_get_latest_nonce clean_save_latest_nonce clean_get_roles clean_check_allowed clean_save_roles
+  clean_check_local_action clean_check_create_burn_add clean_check_system_one_arg
+  clean_delete_create_role clean_add_create_role clean_skv clean_check_payable clean_add_nft_to_destination
+  clean_transfer_one_sender clean_multi_sender_loop clean_multi_out_args clean_multi_dest_loop
+  clean_f_local_mint clean_f_local_burn clean_f_esdt_burn clean_f_nft_create clean_f_nft_add_quantity
+  clean_f_nft_burn clean_f_nft_add_uri clean_f_nft_update_attributes clean_f_freeze_wipe clean_f_pause
+  clean_f_roles clean_f_create_role_transfer clean_f_change_owner clean_f_claim_rewards clean_f_set_user_name
+  clean_f_save_key_value clean_f_esdt_transfer clean_f_nft_transfer_sender clean_f_nft_transfer
+  clean_f_multi_transfer_sender clean_f_multi_transfer clean_exec : clean.
+#[export] Hint Extern 3 (clean _ _) => apply clean_quiet : clean.
+
+Ltac clean_step :=
+  lazymatch goal with
+  | |- clean _ (bind _ _) => apply clean_bind; [|intros ?; cbv beta]
+  | |- clean _ (if ?b then _ else _) => destruct b
+  | |- clean _ (match ?x with _ => _ end) => destruct x
+  | |- _ => solve [auto with clean]
+  end.
+Ltac clean_tac := cbv beta zeta; repeat clean_step.
+
+Lemma clean_mono E {A} (m : @M err mstate A) : clean E m -> forall s r s', m s = (r, s') -> calls s <= calls s'.
+Proof. intros C s r s' H. exact (proj1 (C s r s' H)). Qed.
